@@ -44,7 +44,10 @@ class TreeGen:
     """random trees; `wf=True` keeps them well-formed for layout (unique
     variables, distinct triples) but still uses every syntactic feature"""
 
-    def __init__(self, rng, wf=True, max_nodes=8, aligned=True, weird=0.08):
+    def __init__(self, rng, wf=True, max_nodes=8, aligned=True, weird=0.08, strict=False):
+        # strict: only grammar-valid atoms, canonical alignments and at most one "-of":
+        # the domain of the layout theorems (used by the oracles, to waste fewer cases)
+        self.wf_strict = strict
         self.rng = rng
         self.wf = wf
         self.max_nodes = max_nodes
@@ -86,7 +89,9 @@ class TreeGen:
                 if isinstance(t, tuple):
                     out.append((r, walk(t)))
                     continue
-                if r != '/' and maybe(rng, 0.2):
+                if r != '/' and maybe(rng, 0.05) and not self.wf_strict:
+                    t = rng.choice(allvars) + rng.choice(['2', 'm', 'x', '0'])
+                elif r != '/' and maybe(rng, 0.2):
                     v = rng.choice(allvars)
                     key = (var, r.partition('~')[0], v)
                     if not self.wf or key not in self.seen_triples:
@@ -97,7 +102,25 @@ class TreeGen:
         return walk(node)
 
     def al(self, p=0.15):
-        return aln(self.rng, p) if self.aligned else ''
+        if not self.aligned:
+            return ''
+        if self.wf_strict:
+            return self.rng.choice(['~1', '~e.2', '~e.1,2', '~E.3', '~x4']) if maybe(self.rng, p) else ''
+        return aln(self.rng, p)
+
+    def role_(self):
+        rng = self.rng
+        if self.wf_strict:
+            r = rng.choice([x for x in ROLES_PLAIN if not x.startswith(':instance')])
+            if maybe(rng, 0.3) and not r.endswith('-of'):
+                r += '-of'
+            return r
+        return role(rng)
+
+    def const_(self):
+        if self.wf_strict:
+            return self.rng.choice([c for c in CONSTS if c not in ('x~y', 'a/b', '""')])
+        return self.rng.choice(CONSTS)
 
     def node(self, depth):
         rng = self.rng
@@ -113,8 +136,11 @@ class TreeGen:
         elif r < 0.88:
             branches.append(('/', None))
         n = rng.choice([0, 0, 1, 1, 2, 2, 3, 4, 5])
+        if maybe(rng, 0.06) and self.budget > 0 and depth < 12:
+            # a concept-less node whose only branch opens a nested node
+            return (var, [(role(rng, invert=False), self.node(depth + 1))])
         for _ in range(n):
-            ro = role(rng)
+            ro = self.role_()
             if self.wf and ro.startswith(':instance'):
                 continue        # an explicit :instance role is a second way to write the concept
             ro += self.al()
@@ -124,7 +150,7 @@ class TreeGen:
             elif k < 0.6 and self.used:
                 tgt = rng.choice(self.used) + self.al(0.1)      # re-entrancy (or self-loop)
             elif k < 0.93:
-                tgt = rng.choice(CONSTS)
+                tgt = self.const_()
                 if not tgt.startswith('"') or maybe(rng, 0.4):
                     tgt += self.al(0.1)
             else:
